@@ -33,6 +33,18 @@ impl Write for Tee { fn write(&mut self, b: &[u8]) -> std::io::Result<usize> { s
 #[derive(Default, Debug)]
 pub struct ConnLog { pub cr: Vec<u8>, pub m1: Vec<u8>, pub m2: Vec<u8>, pub m3: Vec<u8>, pub r2: Vec<u8>, pub chal: Vec<u8>, pub k: Option<Vec<u8>>, pub creds: Option<Vec<u8>>, pub frames: Vec<Vec<u8>>, pub srv_msgs: Vec<Vec<u8>>, pub ccr: Vec<u8>, pub au: Vec<u8>, pub cjc: Vec<Vec<u8>>, pub lic: Vec<u8>, pub note: String, pub sel: u32, pub raw: Vec<u8>, pub ahead: Option<usize> }
 
+/// the server's side of the connection after the negotiation: TLS, or the raw socket when it selected plain RDP security
+pub enum Chan { Tls(native_tls::TlsStream<Tee>), Raw(Tee) }
+impl Read for Chan { fn read(&mut self, b: &mut [u8]) -> std::io::Result<usize> { match self { Chan::Tls(t) => t.read(b), Chan::Raw(t) => t.read(b) } } }
+impl Write for Chan {
+    fn write(&mut self, b: &[u8]) -> std::io::Result<usize> { match self { Chan::Tls(t) => t.write(b), Chan::Raw(t) => t.write(b) } }
+    fn flush(&mut self) -> std::io::Result<()> { match self { Chan::Tls(t) => t.flush(), Chan::Raw(t) => t.flush() } }
+}
+impl Chan {
+    pub fn shutdown(&mut self) -> std::io::Result<()> { match self { Chan::Tls(t) => t.shutdown(), Chan::Raw(_) => Ok(()) } }
+    pub fn set_read_timeout(&self, d: Duration) { match self { Chan::Tls(t) => { t.get_ref().inner.set_read_timeout(Some(d)).ok(); } Chan::Raw(t) => { t.inner.set_read_timeout(Some(d)).ok(); } } }
+}
+
 /// is there unread data on the socket right now? (the client wrote something although the
 /// server has not yet answered the request it is processing)
 fn pending(fd: i32) -> bool {
@@ -59,12 +71,13 @@ pub fn serve(raw: UnixStream, s: SrvCfg, acc_key: Vec<u8>, rawlog: Arc<Mutex<Vec
     let mut tee = Tee { inner: raw, log: rawlog };
     log.cr = match read_tpkt(&mut tee) { Some(f) => f, None => { log.note = "no connection request".into(); return log; } };
     let offered = if log.cr.len() >= 19 { u32::from_le_bytes([log.cr[15], log.cr[16], log.cr[17], log.cr[18]]) } else { 0 };
-    let sel = if s.sel != 0 { s.sel } else if offered & 2 != 0 { 2 } else { 1 };
+    // 0x100: the server selects PROTOCOL_RDP (0) whatever was offered and then speaks in the clear
+    let sel = if s.sel == 0x100 { 0 } else if s.sel != 0 { s.sel } else if offered & 2 != 0 { 2 } else { 1 };
     log.sel = sel;
     if !write_all(&mut tee, &refsrv::tpkt_frame(&crate::props::c05::confirm(2, 0, sel))) { log.note = "write cc".into(); return log; }
     let (ident, spk) = identity(s.id);
     let acceptor = native_tls::TlsAcceptor::new(ident).unwrap();
-    let mut tls = match acceptor.accept(tee) { Ok(t) => t, Err(_) => { log.note = "tls accept failed".into(); return log; } };
+    let mut tls = if sel == 0 { Chan::Raw(tee) } else { match acceptor.accept(tee) { Ok(t) => Chan::Tls(t), Err(_) => { log.note = "tls accept failed".into(); return log; } } };
     if sel == 2 {
         let version = s.chal_flags & 0x02000000 != 0;
         let sc = [0x11u8, 0x22, 0x33, 0x44, 0x55, 0x66, 0x77, 0x88];
@@ -158,7 +171,7 @@ pub fn serve(raw: UnixStream, s: SrvCfg, acc_key: Vec<u8>, rawlog: Arc<Mutex<Vec
                                         Act::CloseNotify => { let _ = tls.shutdown(); }
                                         Act::Close => {
                                             // what the client wrote meanwhile is still in the socket: take it in before closing
-                                            tls.get_ref().inner.set_read_timeout(Some(Duration::from_millis(80))).ok();
+                                            tls.set_read_timeout(Duration::from_millis(80));
                                             loop { match read_tpkt(&mut tls) { Some(f) => log.frames.push(f), None => break } }
                                             return log;
                                         }
@@ -503,6 +516,8 @@ pub fn generate(prop: &str, thorough: bool, seed: u64, part: (usize, usize), em:
     let pws = ["", "p", "password", "pässwörd", "密码🔑x", "P@ssw0rd!", "hunter2hunter2", "pw\u{0}tail"];
     let mut idx = 0usize;
     let mut seen = std::collections::HashSet::new();
+    // a server that selects plain RDP security (never offered) and then speaks in the clear: nothing may follow the request
+    if part.0 == 0 { for nla in 0..2 { for ra in 0..2 { tlsgate(em, false, nla == 1, ra == 1, 0x100); } } }
     // every mode combination {nla, restricted, blank, auto, hash} ...
     let rounds = match (prop, thorough) { ("C17", false) => 2, ("C17", true) => 12, (_, false) => 1, (_, true) => 4 };
     for round in 0..rounds {
@@ -524,6 +539,16 @@ pub fn generate(prop: &str, thorough: bool, seed: u64, part: (usize, usize), em:
         }
     }
     if prop == "C17" { return; }
+    // a Client Info PDU whose size sits on the PER length boundary (126 / 128 / 130 bytes of user data: one-byte and
+    // two-byte length forms): a server that announces a pre-5 version gets no extended info, credentials of 47..49 units
+    if part.0 == 0 {
+        for total in 46..=50usize {
+            let c = Cfg { w: 800, h: 600, lay: 0x409, name: "rdp-rs".into(), dom: "D".repeat(16), user: "u".repeat(16), pw: "p".repeat(total - 32), hash: false, ra: false, blank: false, auto: false, nla: false, check: false };
+            let s = SrvCfg { sel: 0, id: 1, uid: 1004, version: 0x80001, license_new: false, share: 0x103ea, caps: default_caps(), source: b"RDP\0".to_vec(), chal_flags: 0x62898235, inputs: vec![], script: vec![], reactivate: None, reuse: 0, jrefuse: 0, ber: 0 };
+            let run = emit(em, &c, &s);
+            if prop == "C04" { emit_strict(em, &run, &mut seen); }
+        }
+    }
     // shutdown before the activation is complete (right after connect, after the demand-active was answered, in
     // the middle of the finalization): the disconnect provider ultimatum is sent all the same
     if part.0 == 0 {
